@@ -1,6 +1,6 @@
 #!/bin/sh
 # usage: tools/try_mutant.sh <patch.diff> <check id>...   applies the patch to /repo, runs the quick checks, reverts
-P="$1"; shift
+P="$(readlink -f "$1")"; shift
 cd /verif
 git -C /repo diff --quiet || { echo "/repo has uncommitted changes"; exit 2; }
 git -C /repo apply "$P" || { echo "patch does not apply"; exit 2; }
